@@ -88,6 +88,16 @@ def invoke(fn, names_, args, environment, pos):
     except CklRuntimeError as e:
         e.stacktrace.append(getFuncallString(fn, args_) + " " + str(pos))
         raise
+    except CklSyntaxError:
+        raise
+    except Exception as e:
+        # a host exception inside a function (bad argument type or value,
+        # exhausted recursion depth, ...) is reported as a runtime error
+        raise CklRuntimeError(
+            ValueString("ERROR"),
+            f"{fn.name}: {type(e).__name__}: {e}",
+            pos,
+        )
 
 
 class NodeAnd:
